@@ -229,14 +229,18 @@ def gibbs_step_inside_limits(h, d, retries):
         h.ge("gibbs stored sample[-1] >= 0", last[d - 1], 0)
 
 
-@unit("C04", quick=[dict(d=1, nw=2), dict(d=2, nw=3)], thorough=[dict(d=2, nw=4), dict(d=3, nw=4)])
-def ensemble_step_inside_bounds(h, d, nw):
+@unit("C04", quick=[dict(d=1, nw=2), dict(d=2, nw=3, via="walker")], thorough=[dict(d=1, nw=3), dict(d=2, nw=4, via="walker")], max_paths=6000, cost=6)
+def ensemble_step_inside_bounds(h, d, nw, via="advance"):
     ev = mc.Events()
     lo, up = _box(h, d)
     en, s, post, alpha, X = mc.make_ensemble(h, d, nw, ev, bounds=(lo, up), max_attempts=1)
-    h.covers(*mc.priv(en.EnsembleSampler, "_EnsembleSampler__proposal", "_EnsembleSampler__advance_walker"))
+    h.covers(en.EnsembleSampler.advance, *mc.priv(en.EnsembleSampler, "_EnsembleSampler__proposal", "_EnsembleSampler__advance_walker"))
     del ev[:]
-    mc.find_method(s, ("walker",), "the single-walker update")(h.choice_int("walker", 0, nw - 1))
+    s.failed_updates = [] if via == "advance" else [0]   # advance() opens a counter per iteration itself
+    if via == "advance":
+        s.advance(1)     # one iteration of the whole ensemble through the public entry point
+    else:                # larger instances: the update of one arbitrary walker (located by purpose, see mcmc_common.find_method)
+        mc.find_method(s, ("walker",), "the single-walker update")(h.choice_int("walker", 0, nw - 1))
     _all_inside(h, "ensemble", ev, lo, up)
     h.ge("ensemble walkers >= lower", s.walker_positions, lo[None, :])
     h.le("ensemble walkers <= upper", s.walker_positions, up[None, :])
